@@ -49,6 +49,9 @@ type C17Op struct {
 type C17Case struct {
 	Compiles []C17Compile `json:"compiles,omitempty"`
 	Clients  [][]C17Op    `json:"clients,omitempty"`
+	// how many lists of the exhaustively enumerated slice this case carries
+	EnumEval    int `json:"enum_eval,omitempty"`
+	EnumCompile int `json:"enum_compile,omitempty"`
 }
 
 func (c *C17Case) sample() any {
@@ -707,6 +710,8 @@ func execC17(t *testing.T, c *Case) *Verdict {
 		setRun(r)
 		defer setRun(nil)
 		e.r, e.in = r, in
+		v.Stats.probeN("enumerated-evaluate-option-lists", c.C17.EnumEval)
+		v.Stats.probeN("enumerated-compile-option-lists", c.C17.EnumCompile)
 		for i := range c.C17.Compiles {
 			e.checkCompile(i, &c.C17.Compiles[i])
 		}
